@@ -690,12 +690,14 @@ pub fn collect_fields(nodes: &[Node], scope: &mut Vec<String>, dynamic: bool, al
                 }
                 all.extend(f);
             }
-            Node::El { attrs, children, .. } => {
+            Node::El { tag, attrs, children } => {
                 let mut has_slot_values = false;
+                // attributes of a virtual node (`<block slot=..>`) are structural positions
+                let structural = tag == "block";
                 for a in attrs {
                     let mut f = BTreeSet::new();
                     attrval_fields(&a.val, scope, &mut f);
-                    if dynamic {
+                    if dynamic || structural {
                         unreachable.extend(f.iter().cloned());
                     }
                     all.extend(f);
